@@ -367,6 +367,12 @@ fn corpus(sink: &mut Sink) {
             (e(h("div"), vec![GTree::leaf(Namespace(0, SVG)), GTree::leaf(Namespace(2, NS_A)), e(svg("svg"), vec![e(hv.id("a", NS_A), vec![])]), e(h("script"), vec![tx("1<2")])]), vec![2], both.to_vec()),
             (e(h("div"), vec![e(h("script"), vec![tx("1<2")])]), vec![0, 0], vec![plain.clone()]),
             (e(h("div"), vec![GTree::leaf(Attribute(0, "preserve".into())), e(h("ul"), vec![e(h("li"), vec![e(h("p"), vec![])])])]), vec![], vec![indent.clone()]),
+            // the start node is an ELEMENT that is not in the default namespace it declares / inherits,
+            // with SVG / MathML / XHTML descendants that rely on that default namespace
+            (e(hv.id("a", NS_A), vec![GTree::leaf(Namespace(2, NS_A)), GTree::leaf(Namespace(0, SVG)), e(svg("g"), vec![e(svg("circle"), vec![])])]), vec![], both.to_vec()),
+            (e(h("div"), vec![GTree::leaf(Namespace(0, MATHML)), GTree::leaf(Namespace(2, NS_A)), e(hv.id("a", NS_A), vec![e(mml("mi"), vec![]), e(mml("mo"), vec![])])]), vec![2], both.to_vec()),
+            (e(h("div"), vec![GTree::leaf(Namespace(0, XHTML)), GTree::leaf(Namespace(2, NS_A)), e(hv.id("b", NS_A), vec![e(x("br"), vec![]), e(x("p"), vec![tx("t")])])]), vec![2], both.to_vec()),
+            (e(h("div"), vec![GTree::leaf(Namespace(0, SVG)), e(h("p"), vec![e(svg("svg"), vec![])])]), vec![1], both.to_vec()),
             (GTree::leaf(Document), vec![], both.to_vec()),
             (GTree::leaf(Attribute(h("class"), "c".into())), vec![], vec![plain.clone()]),
         ]
